@@ -114,7 +114,8 @@ def expected_error(mutant):
 def render(spec):
     """Source text of a model module for a spec."""
     mut = spec.get("mutant")
-    keys, names, units = list(KEYS), list(NAMES), list(UNITS)
+    keys = list(KEYS)
+    names, units = labels_for(spec)
     dlines = list(DEFAULT_LINES.values())
     args = "delta, E, R, nu, contact_point=0, baseline=0"
     if spec.get("argswap"):
@@ -213,6 +214,17 @@ FAILING_STATEMENTS = [
     "raise RuntimeError('boom')"]
 
 
+def labels_for(spec):
+    """Parameter names and units of a spec (a model file may be edited to
+    use other labels under the same key)."""
+    names, units = list(NAMES), list(UNITS)
+    if spec.get("labels") == "alt":
+        names[1] = "Indenter Radius"
+        units[1] = "um"
+        names[4] = "Offset Force"
+    return names, units
+
+
 def eff_anc(spec):
     """The ancillaries a model of this spec can compute."""
     mut = spec.get("mutant") or {}
@@ -296,6 +308,8 @@ class RegistryEngine:
                 spec["argswap"] = True
             if rng.random() < 0.2:
                 spec["own_model"] = rng.choice([2.5e-12, -1e-12])
+            if rng.random() < 0.3:
+                spec["labels"] = "alt"
             if rng.random() < 0.5 or (
                     mutant and mutant.get("attr") in ANC_TRIO + [
                         "compute_ancillaries"]):
@@ -370,7 +384,14 @@ class RegistryEngine:
                 "ops": ops}
 
     # ------------------------------------------------------------ execute
+    track_history = True
+
     def execute(self, run):
+        if run.get("history") and not run.get("_child"):
+            # replay of a finding that depends on what this worker had
+            # executed before (process-wide caches)
+            for h in run["history"]:
+                self.execute(dict(h, _child=True, history=None))
         seams.install_lmfit_determinism()
         import nanite.model as nmodel
         import nanite.model.logic as logic
@@ -665,7 +686,12 @@ class RegistryEngine:
             for k, sp in ref.items():
                 try:
                     okl = (list(nm.get_init_parms(k)) == KEYS
-                           and nm.get_parm_name(k, "R") == "Tip Radius"
+                           and nm.get_parm_name(k, "R") ==
+                           labels_for(sp)[0][1]
+                           and nm.get_parm_unit(k, "R") ==
+                           labels_for(sp)[1][1]
+                           and nm.get_parm_name(k, "baseline") ==
+                           labels_for(sp)[0][4]
                            and nm.get_parm_unit(k, "E") == "Pa"
                            and nm.get_model_by_name(
                                "harness model " + k) is reg[k]
@@ -679,6 +705,25 @@ class RegistryEngine:
                         "M1", "package-helpers", feats,
                         f"nanite.model helper functions disagree with the "
                         f"registered model {k}", i)
+                    break
+            if violation:
+                break
+            # ... and know nothing about keys that are not registered
+            for k in ("simk0", "simk1", "simk2"):
+                if k in ref or k in reg:
+                    continue
+                for fn in (nm.get_parm_name, nm.get_parm_unit):
+                    try:
+                        got = fn(k, "R")
+                    except _caught():
+                        continue
+                    violation = viol(
+                        "M1", "package-helpers", dict(feats, gone=True),
+                        f"nanite.model.{fn.__name__}({k!r}, 'R') answers "
+                        f"{got!r} although no model is registered under "
+                        f"that key", i)
+                    break
+                if violation:
                     break
             if violation:
                 break
@@ -805,15 +850,19 @@ class RegistryEngine:
         if md.model_key != spec["key"]:
             return make_violation(self.prop, "M4", "model_key", feats,
                                   "model_key differs", i)
+        NAMES_, UNITS_ = labels_for(spec)
+        if spec.get("mutant"):
+            NAMES_, UNITS_ = list(md.parameter_names), \
+                list(md.parameter_units)
         if list(md.parameter_keys) != KEYS or \
-                list(md.parameter_names) != NAMES or \
-                list(md.parameter_units) != UNITS:
+                list(md.parameter_names) != NAMES_ or \
+                list(md.parameter_units) != UNITS_:
             return make_violation(self.prop, "M4", "parameter-lists", feats,
                                   "parameter keys/names/units differ from "
                                   "the module's", i)
         # documented names and units, also when an ancillary has the same
         # key as a fit parameter
-        for k, nm, un in zip(KEYS, NAMES, UNITS):
+        for k, nm, un in zip(KEYS, NAMES_, UNITS_):
             if md.get_parm_name(k) != nm or md.get_parm_unit(k) != un:
                 return make_violation(
                     self.prop, "M4", "parameter-label", dict(feats, key=k),
@@ -878,7 +927,10 @@ class RegistryEngine:
         p0 = None
         with warnings.catch_warnings():
             warnings.simplefilter("ignore")
-            if (eff_anc(spec) or {}).get("E") == "data":
+            if eff_anc(spec):
+                # first on the raw curve (no tip position yet: the contact
+                # point cannot be guessed, the model's own ancillaries
+                # apply all the same)
                 try:
                     p0 = idnt.get_initial_fit_parameters(model_key=key)
                 except _caught() as e:
@@ -927,6 +979,18 @@ class RegistryEngine:
                         f"{q[k].value}, get_initial_fit_parameters at "
                         f"{p[k].value}", i)
         anc = eff_anc(spec)
+        if anc and p0 is not None:
+            for k_, dflt in (("E", 3e3), ("R", 10e-6)):
+                a_ = anc.get(k_)
+                w_ = a_ if (a_ is not None and a_ != "data"
+                            and a_ == a_) else dflt
+                if p0[k_].value != w_:
+                    return make_violation(
+                        self.prop, "M5", f"seed-{k_}",
+                        dict(feats, anc="raw-curve"),
+                        f"initial {k_} on the raw curve (no tip position) "
+                        f"is {p0[k_].value}, the model's ancillaries give "
+                        f"{w_}", i)
         want_E = 3e3
         if anc and anc["E"] == "data":
             # before the pipeline ran there was no tip position (nothing to
